@@ -257,7 +257,7 @@ def install(ctx):
         vals = list(_ARGS) + list(_KWARGS.values())
         return mon.post_nearest(vals[0], vals[1], result)
 
-    nearest = icontract.ensure(post, error=contracts.ContractError)(orig_nearest)
+    nearest = icontract.ensure(post, error=contracts.ContractError, enabled=True)(orig_nearest)
     cls.__init__, cls.nearest, cls.remove_path = init, nearest, remove_path
     for name, orig in (("__init__", orig_init), ("nearest", orig_nearest), ("remove_path", orig_remove)):
         contracts._installed.append((cls, name, orig))
